@@ -19,7 +19,7 @@ VOCAB = [
     "0", "1", "2", "7", "8", "255", "256", "65535", "65536", "0x0", "0xff", "0xFFFFFFFFFFFFFFFF", "18446744073709551616",
     '"a.bitproto"', '"b.bitproto"', '"nosuch.bitproto"', '""', '"x\\ty"', '"\\q"', '"unterminated', '"an unterminated string literal that goes on and on for a while', '"trailing backslash \\\\',
     "// comment", "//", "/",
-    "Foo", "Bar", "foo", "bar", "K", "X_Y", "a", "b", "Foo.Bar", "a.Foo", "max_bytes", "c.name_prefix", "c.struct_packing_alignment", "py.module_name", "go.package_path",
+    "Foo", "Bar", "foo", "bar", "K", "X_Y", "a", "b", "Foo.Bar", "a.Foo", "K.x", "a.K.z", "Color.RED.x", "Foo.x.y", "T.size", "max_bytes.n", "Foo.Bar.y.z", "a.Foo.Bar", "b.a.K", "max_bytes", "c.name_prefix", "c.struct_packing_alignment", "py.module_name", "go.package_path",
     "é", "\x00", "\x7f", "@", "#", "$", "`", " ",
 ]
 
@@ -39,7 +39,7 @@ def mutated(draw: Any, seeds: List[str]) -> Tuple[str, str]:
     for _ in range(draw(st.integers(1, 4))):
         if not toks:
             toks = ["proto", " ", "x"]
-        k = draw(st.sampled_from(["delete", "duplicate", "swap", "replace", "insert", "truncate", "splice", "bignum", "longident", "nest", "oddchar", "delete_run"]))
+        k = draw(st.sampled_from(["delete", "duplicate", "swap", "replace", "insert", "truncate", "splice", "bignum", "longident", "nest", "oddchar", "delete_run", "dotted", "dotted", "keyword_as_name"]))
         i = draw(st.integers(0, len(toks) - 1))
         if k == "delete":
             del toks[i]
@@ -69,6 +69,21 @@ def mutated(draw: Any, seeds: List[str]) -> Tuple[str, str]:
         elif k == "nest":
             d = draw(st.integers(2, 40))
             toks.insert(i, "".join(f"message N{q} {{\n" for q in range(d)) + "bool b = 1\n" + "}\n" * d)
+        elif k == "dotted":
+            # extend / prefix an identifier with another identifier of the same text: dotted paths through
+            # definitions of every kind (constants, fields, enum members, aliases, options, imports)
+            idents = [q for q, t in enumerate(toks) if re.fullmatch(r"[A-Za-z_][A-Za-z0-9_]*", t) and t not in ("proto", "import", "option", "type", "const", "enum", "message", "typedef")]
+            if len(idents) >= 2:
+                a = idents[draw(st.integers(0, len(idents) - 1))]
+                b = idents[draw(st.integers(0, len(idents) - 1))]
+                if draw(st.booleans()):
+                    toks[a] = toks[a] + "." + toks[b]
+                else:
+                    toks[a] = toks[b] + "." + toks[a]
+        elif k == "keyword_as_name":
+            idents = [q for q, t in enumerate(toks) if re.fullmatch(r"[A-Za-z_][A-Za-z0-9_]*", t)]
+            if idents:
+                toks[idents[draw(st.integers(0, len(idents) - 1))]] = draw(st.sampled_from(["type", "message", "enum", "const", "option", "import", "proto", "bool", "byte", "uint8", "true", "no"]))
         elif k == "oddchar":
             toks.insert(i, draw(st.text(min_size=1, max_size=3)))
         kinds.append(k)
